@@ -6,7 +6,7 @@ PROP = 'C41'
 LEVEL = 'exploration'
 ENGINE = 'grid'
 TECHNIQUE = ('bounded exhaustive evaluation: zetazero(n) for ALL n in 1..160 and for ALL n in windows of 13 (thorough 41) consecutive indices around 16 anchor indices up to 1.4*10^7 '
-             '(first Gram-law failures, a Lehmer pair, the first Rosser-rule failure, powers of ten), nzeros at every midpoint and on both sides of every zero, grampoint and '
+             '(first Gram-law failures, a Lehmer pair, the first Rosser-rule failure, powers of ten, two Rosser exceptions beyond 4*10^8 where the Turing-method branch is used), zetazero(10^4), zetazero(10^5) at 425 bits, nzeros at every midpoint and on both sides of every zero, grampoint and '
              'backlunds on index/height lattices; oracles independent of the block-search code: sign changes of Z on a fine grid, the argument principle '
              '(theta(T)/pi + 1 + arg zeta(1/2+iT)/pi, exact below height 300 and modulo 2 above), literature values of gamma_n')
 RULE = ('for every n examined: re(zetazero(n)) == 1/2 exactly; Z = siegelz changes sign between gamma*(1 -+ 2^(8-p)) (evaluated at 2p+60 bits), so a zero lies within the stated '
@@ -31,6 +31,10 @@ def tasks(tier, seed):
         out += [('low', p, c, 4) for c in range(4)] + [('gram', p), ('backlunds', p)]
         half = 6 if tier != 'thorough' else 20
         out += [('window', p, a, half) for a in ANCHORS if tier == 'thorough' or p == 53 or a in (126, 6709, 10 ** 5, 13999527)]
+    # beyond 4*10^8 the block search switches to the Turing-method branch: windows around two Rosser-rule exceptions there
+    out += [('window', 53, a, 3 if tier != 'thorough' else 8) for a in (437953503, 526196239)]
+    # refinement of the ordinate at high precision (several Newton doubling levels) for zeros of moderate and large index
+    out += [('hp', n, pp) for n in (10 ** 4, 10 ** 5) for pp in ((425,) if tier != 'thorough' else (212, 425, 850))]
     return out
 
 
@@ -190,6 +194,22 @@ def t_window(task):
                 if zc.real != z.real or zc.imag != -z.imag:
                     acc.violation(['conj', n, p], 'zetazero(-%d) is not the conjugate of zetazero(%d)' % (n, n), kind='conjugate', height='high', anchor=anchor)
         acc.sample(['window', anchor, p])
+    finally:
+        mp.prec = 53
+    return acc
+
+
+def t_hp(task):
+    _, n, p = task
+    from mpmath import mp
+    acc = Acc()
+    try:
+        mp.prec = p
+        z = core.with_timeout(600, mp.zetazero, n)
+        check_zero(acc, mp, n, z, p, None, height='high', anchor=n)
+        acc.sample(['zetazero', n, p])
+    except core.TimeoutHit:
+        acc.count('timeouts')
     finally:
         mp.prec = 53
     return acc
